@@ -41,6 +41,10 @@ def s_replace_first(a):
     return a.replace("a", "bb", 1), a.replace("-", "", 1)
 
 
+def s_replace_all(a):
+    return a.replace("a", "bb"), a.replace("\\*", ".*"), a.replace("aa", "a")
+
+
 def s_find_index(a):
     i = a.find("-")
     j = a.rfind("/")
